@@ -8,11 +8,22 @@ import (
 
 // Scan breaks a string into a sequence of Tokens.
 func Scan(data string, loc SourceLoc, delims []string) (tokens []Token) {
-	// Apply defaults
+	// Apply defaults; an empty delimiter stands for the corresponding default
+	defaults := []string{"{{", "}}", "{%", "%}"}
 	if len(delims) != 4 {
-		delims = []string{"{{", "}}", "{%", "%}"}
+		delims = defaults
+	} else {
+		delims = append([]string{}, delims...)
+		for i, d := range delims {
+			if d == "" {
+				delims[i] = defaults[i]
+			}
+		}
 	}
 	tokenMatcher := formTokenMatcher(delims)
+	// a hyphen just inside a delimiter, whatever the delimiter's length
+	trimsLeft := func(source, left string) bool { return source[len(left)] == '-' }
+	trimsRight := func(source, right string) bool { return source[len(source)-len(right)-1] == '-' }
 
 	// TODO error on unterminated {{ and {%
 	// TODO probably an error when a tag contains a {{ or {%, at least outside of a string
@@ -26,7 +37,7 @@ func Scan(data string, loc SourceLoc, delims []string) (tokens []Token) {
 		source := data[ts:te]
 		switch {
 		case data[ts:ts+len(delims[0])] == delims[0]:
-			if source[2] == '-' {
+			if trimsLeft(source, delims[0]) {
 				tokens = append(tokens, Token{
 					Type: TrimLeftTokenType,
 				})
@@ -37,13 +48,13 @@ func Scan(data string, loc SourceLoc, delims []string) (tokens []Token) {
 				Source:    source,
 				Args:      data[m[2]:m[3]],
 			})
-			if source[len(source)-3] == '-' {
+			if trimsRight(source, delims[1]) {
 				tokens = append(tokens, Token{
 					Type: TrimRightTokenType,
 				})
 			}
 		case data[ts:ts+len(delims[2])] == delims[2]:
-			if source[2] == '-' {
+			if trimsLeft(source, delims[2]) {
 				tokens = append(tokens, Token{
 					Type: TrimLeftTokenType,
 				})
@@ -58,7 +69,7 @@ func Scan(data string, loc SourceLoc, delims []string) (tokens []Token) {
 				tok.Args = data[m[6]:m[7]]
 			}
 			tokens = append(tokens, tok)
-			if source[len(source)-3] == '-' {
+			if trimsRight(source, delims[3]) {
 				tokens = append(tokens, Token{
 					Type: TrimRightTokenType,
 				})
@@ -81,10 +92,8 @@ func formTokenMatcher(delims []string) *regexp.Regexp {
 	// [^T]|T[^A]|TA[^G]|TAG[^!]|TAG![^R]|TAG!R[^I]|TAG!RI[^G]|TAG!RIG[^H]|TAG!RIGH[^T]
 	exclusion := make([]string, 0, len(delims[3]))
 	for idx, val := range delims[3] {
-		exclusion = append(exclusion, "[^"+string(val)+"]")
-		if idx > 0 {
-			exclusion[idx] = delims[3][0:idx] + exclusion[idx]
-		}
+		// the delimiter's characters may be regexp metacharacters
+		exclusion = append(exclusion, regexp.QuoteMeta(delims[3][0:idx])+"[^"+regexp.QuoteMeta(string(val))+"]")
 	}
 
 	tokenMatcher := regexp.MustCompile(
